@@ -44,3 +44,8 @@ def run(tier, seed):
     shutil.rmtree(wd, ignore_errors=True)
     fx = build_fixture(wd, 'c20', open(os.path.join(VERIF, 'kernels', 'c20.cpp')).read())
     return execute('C20', tier, seed, cases(tier, fx), ASSUME)
+
+def cases_all(tier):
+    wd = os.path.join(BUILD, 'C20')
+    fx = build_fixture(wd, 'c20', open(os.path.join(VERIF, 'kernels', 'c20.cpp')).read())
+    return cases(tier, fx)
